@@ -27,9 +27,17 @@ theorem poll_contrib_pos (beh : Beh) (hb : PosBeh beh) (gt endT : Int) (force : 
   cases hp : f.pending <;> cases hs : f.sticky <;> simp only [hp, hs] at hf hc <;> grind
 
 theorem poll_contrib_none (beh : Beh) (gt endT : Int) (force : Bool) (v : Store) (p : Pid) (f : Front)
+    (hlt : gt < endT)
     (h : (poll beh gt endT force v p f).contrib = none) :
     (poll beh gt endT force v p f).quiet = true ∧ (poll beh gt endT force v p f).front.time ≤ gt
       ∧ (poll beh gt endT force v p f).front.sticky = none := by
+  unfold poll pollWith at *
+  cases hs : f.sticky <;> simp only [hs] at h ⊢ <;> grind
+
+/-- a front that contributes nothing is not ahead of the clock (also in the zero-length forced pass) -/
+theorem poll_contrib_none_time (beh : Beh) (gt endT : Int) (force : Bool) (v : Store) (p : Pid) (f : Front)
+    (h : (poll beh gt endT force v p f).contrib = none) :
+    (poll beh gt endT force v p f).front.time ≤ gt := by
   unfold poll pollWith at *
   cases hs : f.sticky <;> simp only [hs] at h ⊢ <;> grind
 
@@ -95,7 +103,7 @@ theorem foldl_minOpt_mem (os : List (Pid × Outcome)) (m : Option Int) (d : Int)
 
 /-- what one polled front looks like afterwards -/
 theorem poll_cases (beh : Beh) (hb : PosBeh beh) (gt endT : Int) (force : Bool) (v : Store)
-    (p : Pid) (f : Front) (hle : gt ≤ endT) (hf : FrontOK gt f) :
+    (p : Pid) (f : Front) (hle : gt < endT) (hf : FrontOK gt f) :
     let o := poll beh gt endT force v p f
     (o.quiet = true ∧ o.contrib = none) ∨
     (o.quiet = false ∧ ∃ c, o.contrib = some c ∧
@@ -188,7 +196,7 @@ theorem iter_inv (c : Cfg) (hb : PosBeh c.beh) (endT : Int) (force : Bool) (s : 
       obtain ⟨a, b, hab, rfl⟩ := hpf
       obtain ⟨f, hf, hbb⟩ := hmem (a, b) hab
       simp only at hbb; subst hbb
-      exact (poll_contrib_none _ _ _ _ _ _ _ (hnone _ hab)).2.1
+      exact (poll_contrib_none _ _ _ _ _ _ _ hlt (hnone _ hab)).2.1
     rw [hne]
     refine ⟨?_, hlt, Int.le_refl _⟩
     intro pf hpf
@@ -196,7 +204,7 @@ theorem iter_inv (c : Cfg) (hb : PosBeh c.beh) (endT : Int) (force : Bool) (s : 
     obtain ⟨a, b, hab, rfl⟩ := hpf
     obtain ⟨f, hf, hbb⟩ := hmem (a, b) hab
     simp only at hbb hf; subst hbb
-    exact settle_quiet_ok endT _ (poll_contrib_none _ _ _ _ _ _ _ (hnone _ hab)).1
+    exact settle_quiet_ok endT _ (poll_contrib_none _ _ _ _ _ _ _ hlt (hnone _ hab)).1
   | some d =>
     have ⟨_, hmin⟩ := foldl_minOpt_le os none d hfs
     have hdpos : 0 < d := by
@@ -216,7 +224,7 @@ theorem iter_inv (c : Cfg) (hb : PosBeh c.beh) (endT : Int) (force : Bool) (s : 
       simp only at hbb hf; subst hbb
       simp only [emitAfter_gt, runSteps_gt]
       apply clearDue_ok
-      have hc := poll_cases c.beh hb s.gt endT force s.store a f hle (hinv _ hf)
+      have hc := poll_cases c.beh hb s.gt endT force s.store a f hlt (hinv _ hf)
       simp only at hc
       rcases hc with ⟨hq, _⟩ | ⟨hq, c', hcc, hcase⟩
       · right; exact settle_quiet_ok _ _ hq
@@ -231,7 +239,7 @@ theorem iter_inv (c : Cfg) (hb : PosBeh c.beh) (endT : Int) (force : Bool) (s : 
       obtain ⟨a, b, hab, rfl⟩ := hpf
       obtain ⟨f, hf, hbb⟩ := hmem (a, b) hab
       simp only at hbb hf; subst hbb
-      have hc := poll_cases c.beh hb s.gt endT force s.store a f hle (hinv _ hf)
+      have hc := poll_cases c.beh hb s.gt endT force s.store a f hlt (hinv _ hf)
       simp only at hc
       rcases hc with ⟨hq, _⟩ | ⟨hq, c', hcc, hcase⟩
       · exact settle_quiet_ok _ _ hq
